@@ -7,6 +7,7 @@ import copy
 import os
 import io
 import json
+import zlib
 
 from hedmon.core import env
 from hedmon.gen import annot, tables
@@ -22,7 +23,7 @@ RULE = ("sidecars with 1-5 columns of kinds {categorical, value, ignored, absent
         ">= 2 HED-bearing columns or a reference; distinct = distinct (sidecar, table)")
 ASSUMPTIONS = ["assembly model hedmon/gen/tables.py::model_row is written from the property text",
                "comparison is on unordered trees because the order of the pieces is not part of the property"]
-MIN_MONITOR_EVALS = {"sidecar-from-list": 100, "sheet-row-equals-model": 500, "row-equals-model": 1500, "well-formed": 1000, "repeatable": 300, "table-unchanged": 300,
+MIN_MONITOR_EVALS = {"sidecar-from-list": 100, "assembled-again-after-set-cell": 300, "sheet-row-equals-model": 500, "row-equals-model": 1500, "well-formed": 1000, "repeatable": 300, "table-unchanged": 300,
                      "sidecar-unchanged": 300, "skip-curly-view": 300, "row-with-reference": 200}
 VERSIONS = ["8.3.0", "8.2.0", "score_2.0.0"]
 
@@ -151,6 +152,44 @@ def check_case(case, rec):
             switched = None
         if switched is not None and [hedparse.canon_text(x) for x in switched] != [hedparse.canon_text(x) for x in s1]:
             rec.violation("a table whose sidecar was switched assembles differently from a fresh table with that sidecar", case)
+
+
+    # one object assembled, one cell replaced through set_cell, assembled again: the answer follows the table
+    if form == "frame" and b["rows"] and not case.get("sidecar_list"):
+        from hed.models.hed_string import HedString
+        bearing = [c for c in b["columns"] if c == "HED" or b["kinds"].get(c) in ("categorical", "value")]
+        if bearing:
+            rec.mon("assembled-again-after-set-cell")
+            k = zlib.crc32(json.dumps(b["rows"]).encode())
+            ri, c = k % len(b["rows"]), bearing[(k // 7) % len(bearing)]
+            ci = b["columns"].index(c)
+            if c == "HED":
+                new_text = "Purple,(Square)"
+            elif b["kinds"][c] == "categorical":
+                keys = list(b["sidecar"][c]["HED"])
+                new_text = keys[(k // 11) % len(keys)]
+            else:
+                new_text = "n/a"
+            rows2 = [list(r) for r in b["rows"]]
+            rows2[ri][ci] = new_text
+            try:
+                t3 = TabularInput(pd.DataFrame(b["rows"], columns=b["columns"]), Sidecar(io.StringIO(json.dumps(b["sidecar"]))))
+                list(t3.series_a)
+                obj = HedString(new_text, env.schema("8.3.0")) if c == "HED" else None
+                if obj is None:
+                    class _Text:                 # set_cell only asks its argument for the text in the wanted form
+                        def get_as_form(self, tag_form):
+                            return new_text
+                    obj = _Text()
+                t3.set_cell(ri, ci, obj)
+                edited = list(t3.series_a)
+                fresh = list(TabularInput(pd.DataFrame(rows2, columns=b["columns"]),
+                                          Sidecar(io.StringIO(json.dumps(b["sidecar"])))).series_a)
+            except Exception as ex:  # noqa
+                rec.violation(f"assembling again after set_cell raised {type(ex).__name__}", case)
+                edited = None
+            if edited is not None and [hedparse.canon_text(x) for x in edited] != [hedparse.canon_text(x) for x in fresh]:
+                rec.violation("a table assembled again after a cell was replaced differs from a fresh table with that cell", case)
 
 
 def check_sheet(case, rec):
